@@ -9,6 +9,20 @@ NOTE = ("Trusted base: go/packages, go/types, go/ssa of x/tools v0.29.0; the rul
 
 # property -> (claim text, design ref, technique) ; absent => not_applicable with reason
 CLAIMS = {
+ "C01": ("Decided for all inputs: the written bytes are gofmt(goimports(content)) on nil-error edges; every member of the emitted-code grammar (headers × hooks × assignment sequences, two nesting levels) parses and type-checks in a synthetic package under the builder invariants; "
+         "visibility is tested with the package of the very type used on every resolver step; conversions/wrappers/copy() only under their go/types judgement and never around two-value calls; unqualified type strings reach emitted text only for basic types; pointer conversions parenthesised. "
+         "Correctness of every rendered leaf for every Go type shape is not decided.", "DESIGN.md §3 C01", "emitted-code grammar extraction (string analysis over the typed AST) judged by go/parser+go/types; reaching-condition and provenance rules on go/ssa"),
+ "C02": ("Behaviour at run time is not decidable statically; decided are necessary conditions on what can be emitted: allocation statement iff pointer-return style and first; each template writes LHS/reads RHS; every node kind renders as documented for all guard valuations; source paths resolved from the root; reverse swap pairs variables with their own signature elements; nil guards from ObjNullable.",
+         "DESIGN.md §3 C02", "template extraction with opaque leaves compared against documented renderings; reaching-condition rules on go/ssa"),
+ "C03": ("Acceptance over all layouts is not decidable; decided necessary conditions: no grammar member fails to parse; markers always get a fresh comment group and the comment table is modified only on the way out of the scan; no per-element loop drops an element; notation names are resolved from the innermost scope.",
+         "DESIGN.md §3 C03", "grammar members judged by go/parser; CFG/loop-membership and must-pass-through rules on go/ssa"),
+ "C11": ("Carry-over through go/printer is not decidable; decided necessary conditions: doc lines emitted in order before func for 0..3 lines; forwarded doc group is the one notations were extracted from; extraction and ToTextList visit every line unfiltered with no early exit; selected interface docs emptied; module code writes only comment fields of the AST; directives stripped before printing.",
+         "DESIGN.md §3 C11", "who-may-write inventory over go/ssa stores; loop-exit shape rules; template query"),
+ "C13": ("Decided for all inputs: nondeterminism sources in module code = confirmed table (marker generator; file-log timestamps), no concurrency, stderr logger without timestamps, the random marker flows only into key positions, every map range is order-insensitive by shape (flag or strict-minimum fold). Determinism of external tools is not decided.",
+         "DESIGN.md §3 C13", "effect inventory + loop-carried-value shape analysis on go/ssa"),
+ "C16": ("Run-time aliasing is not observable statically; decided necessary conditions: slice templates have the guarded make+copy/loop shape; copy() only for identical element types; slice-ness judged on the underlying type; a slice pair reaches the plain-assignment ladder only after the copier declined, which it does only for non-assignable (and non-convertible-under-typecast) element types.",
+         "DESIGN.md §3 C16", "template shape query (go/parser) + reaching-condition rules on go/ssa"),
+
  "C04": ("Static rules (reaching-condition gating on SSA) decide for all inputs that no String() wrapper, type conversion, converting slice loop, "
          "getter candidate or name-based candidate can be created without its opt-in flag and the go/types judgement that justifies it, that getters "
          "win over fields, and that the name/getter/stringer predicates have the documented shape. Necessary conditions of the property; the choice "
